@@ -536,8 +536,25 @@ class Gen:
     def label(self):
         return rand_label(self.rng, self.nasty, full_ascii=self.full_ascii)
 
+    def long_rel(self):
+        """relative labels bringing the absolute name to 253..255 octets (255 is the limit): labels of up to
+        63 octets; written absolutely such a name is 252..254 characters long"""
+        rng = self.rng
+        apex_len = 1 + sum(1 + len(l) for l in self.apex)
+        room = rng.choice([255, 255, 254, 253]) - apex_len
+        labels = []
+        while room >= 2:
+            n = min(63, room - 1)
+            if room - 1 - n == 1:
+                n -= 1
+            labels.append(bytes([rng.choice(PLAIN[:26])]) * n)
+            room -= 1 + n
+        return tuple(labels)
+
     def rel(self, allow_empty=False):
         """labels relative to the apex"""
+        if self.rng.random() < 0.04:
+            return self.long_rel()
         k = self.rng.choice([0, 1, 1, 1, 2, 3]) if allow_empty else self.rng.choice([1, 1, 1, 2, 3])
         return tuple(self.rng.choice(self.sub) if self.rng.random() < 0.7 else self.label() for _ in range(k))
 
